@@ -234,3 +234,15 @@ class Runner:
         self.det.reset()
         self.lines.append(f"r {self.inst}")
         self._record()
+
+
+def model_raises_at_end(cls: str, params: dict, xs: list) -> bool:
+    """Does the MODEL end the history `xs` (fed to a new `cls(params)`) with an error at its last update and at no earlier one?  Used to attribute an exception of the
+    implementation to a recorded finding by the history that fails (the model carries the recorded behaviour) instead of by the wording of its message."""
+    from common import f2h, run_driver
+    r = Runner("k", cls, params)
+    if r.det is None:
+        return False
+    lines = [r.lines[0]] + [f"u k {f2h(float(x))}" for x in xs]
+    res = run_driver(lines)
+    return len(res) == len(lines) and res[-1].startswith("err:") and not any(o.startswith("err:") for o in res[:-1])
